@@ -135,6 +135,9 @@ def variants(rng, p, hname, exhaustive=False):
         if depth > 0:
             d = rng.randrange(depth)
             add("key-in-path", q(kind, key=flip_hex(key, d // 8, 1 << (7 - d % 8))))
+            d = depth - 1       # the last bit the non-inclusion verifiers compare with the proof key
+            add("key-last-path-bit", q(kind, key=flip_hex(key, d // 8, 1 << (7 - d % 8))))
+            add("key-first-path-bit", q(kind, key=flip_hex(key, 0, 0x80)))
         if depth < 256:
             d = rng.randrange(depth, 256)
             add("key-below-path", q(kind, key=flip_hex(key, d // 8, 1 << (7 - d % 8))))
@@ -353,6 +356,29 @@ def run(ctx):
                         [{"case": {k: cases[e[0]][k] for k in ("hash", "batches")}, "key": e[1]["key"], "at": e[1]["at"],
                           "impl": e[2][:2000], "model": g[:2000]}])
         ctx.cov["model_proofs_compared"] = len(expect)
+        # a sample inside Coq (vm_compute), independent of extraction
+        ksample = [e for e in expect if len(cases[e[0]]["batches"]) <= 4][: (12 if ctx.tier == "quick" else 60)]
+        if ksample:
+            items = []
+            for ci, p, _ in ksample:
+                c = dict(cases[ci])
+                c["batches"] = c["batches"][: p["at"] + 1]
+                items.append("((%s,%s),(%s,%s,%s,%s))" % (
+                    tg.cq_batches(c), tg.cq_bytes(p["key"]), tg.cq_list([tg.cq_bytes(x) for x in p["ap"]]),
+                    "true" if p["inc"] else "false", tg.cq_bytes(p["pk"]), tg.cq_bytes(p["pv"])))
+            txt = ["From Coq Require Import List NArith Bool.", "From Verif Require Import Trie.Model Trie.Eval Trie.EvalProof.",
+                   "Import ListNotations.", "Open Scope N_scope.",
+                   "Definition cases : list c11_case := [\n%s]." % ";\n".join(items),
+                   "Definition M := Eval vm_compute in c11_mismatches cases.", "Print M."]
+            rc, _ = ctx.coq_make(["Trie/EvalProof.vo"])
+            ok, idx, out = ctx.coq_eval_mismatches("c11_cases", "\n".join(txt), timeout=900)
+            if not ok:
+                corr = corr or ("kernel-side proof evaluation failed: " + out[-800:], [])
+            elif idx:
+                e = ksample[idx[0]]
+                corr = corr or ("model proof (vm_compute) differs from the real proof or is rejected by the model verifier on %d of %d sampled proofs"
+                                % (len(idx), len(ksample)), [{"case": {k: cases[e[0]][k] for k in ("hash", "batches")}, "key": e[1]["key"], "at": e[1]["at"]}])
+            ctx.cov["kernel_evaluated_proofs"] = len(ksample)
     # ---- corrupted proofs through the real verifiers and the model verifiers
     budget = 2500 if ctx.tier == "quick" else 60000
     queries = []    # (label, query, claim, truth-map)
